@@ -65,7 +65,6 @@ M = {
  "C08-copy_aliases_heralds": [(C, "        new_circ.__in_heralds = copy(self.__in_heralds)", "        new_circ.__in_heralds = self.__in_heralds")],
  "C08-plus_extends_left": [(C, "        new_circ.__circuit_spec = self.__circuit_spec + value.__circuit_spec\n        return new_circ",
                                "        self.__circuit_spec += value.__circuit_spec\n        new_circ.__circuit_spec = list(self.__circuit_spec)\n        return new_circ")],
- "C08-reck_unpacks_argument": [(R, "        self.error_model._set_random_seed(seed)\n", "        self.error_model._set_random_seed(seed)\n        circuit.unpack_groups()\n")],
  "C08-ps_appends_before_validating": [(C, "        check_loss(loss)\n        self.__circuit_spec.append(PhaseShifter(mode, phi))",
                                           "        self.__circuit_spec.append(PhaseShifter(mode, phi))\n        check_loss(loss)")],
  "C08-tomography_adds_to_base": [(ST, "        circuit = self.base_circuit.copy()\n", "        circuit = self.base_circuit if self.n_qubits > 1 else self.base_circuit.copy()\n")],
